@@ -10,20 +10,22 @@ open Goml Goml.Sem Goml.Wt Goml.Mono
 /-- the statement at one fuel -/
 structure SoundAt (S : Sig) (P : Prog) (n : Nat) : Prop where
   expr : ∀ {e : Expr} {ρ : Env} {w : World} {Γ : TyEnv} {K : Know} {θ : Subst} {v : Val} {w' : World},
-    okE P Γ K e = true → errs S Γ e = [] → envTy S θ ρ Γ = true → KOk K ρ →
-    eval n P ρ w e = .ok v w' → valTy S v (substTy θ (getTy e)) = true
+    okE P Γ K e = true → errs S Γ e = [] → ET S P θ ρ Γ → KOk K ρ →
+    eval n P ρ w e = .ok v w' → VT S P v (substTy θ (getTy e))
   list : ∀ {es : List Expr} {ρ : Env} {w : World} {Γ : TyEnv} {K : Know} {θ : Subst} {vs : List Val} {w' : World},
-    okL P Γ K es = true → errsList S Γ es = [] → envTy S θ ρ Γ = true → KOk K ρ →
-    evalList n P ρ w es = .ok vs w' → valTys S vs (substTys θ (getTys es)) = true
+    okL P Γ K es = true → errsList S Γ es = [] → ET S P θ ρ Γ → KOk K ρ →
+    evalList n P ρ w es = .ok vs w' → VTs S P vs (substTys θ (getTys es))
   arms : ∀ {arms : List Arm} {d : Option Expr} {ρ : Env} {w : World} {Γ : TyEnv} {K : Know} {θ : Subst}
     {sv : Option String} {st rt : Ty} {sval v : Val} {w' : World},
     okA P Γ K sv arms = true → errsArms S Γ st rt arms = [] →
     (∀ d0, d = some d0 → okE P Γ K d0 = true ∧ errs S Γ d0 = [] ∧ getTy d0 = rt) →
-    envTy S θ ρ Γ = true → KOk K ρ → (∀ x, sv = some x → lookupEnv ρ x = some sval) →
-    evalArms n P ρ w sval arms d = .ok v w' → valTy S v (substTy θ rt) = true
+    ET S P θ ρ Γ → KOk K ρ → (∀ x, sv = some x → lookupEnv ρ x = some sval) →
+    evalArms n P ρ w sval arms d = .ok v w' → VT S P v (substTy θ rt)
   app : ∀ {name : String} {g : Fn} {θ : Subst} {args : List Val} {w : World} {v : Val} {w' : World},
-    P.findFn name = some g → valTys S args (substTys θ (g.params.map (·.2))) = true →
-    apply n P w (.fn name) args = .ok v w' → valTy S v (substTy θ g.ret) = true
+    P.findFn name = some g → VTs S P args (substTys θ (g.params.map (·.2))) →
+    apply n P w (.fn name) args = .ok v w' → VT S P v (substTy θ g.ret)
+  appv : ∀ {fv : Val} {as : List Ty} {r : Ty} {args : List Val} {w : World} {v : Val} {w' : World},
+    VT S P fv (.func as r) → VTs S P args as → apply n P w fv args = .ok v w' → VT S P v r
 
 section
 variable {S : Sig} {P : Prog}
@@ -51,24 +53,24 @@ theorem substTy_func (θ : Subst) (ps : List Ty) (r : Ty) : substTy θ (.func ps
 
 theorem step_app (hS : SigClosed S) (hP : okProg S P = true) {n : Nat} (ih : SoundAt S P n)
     {name : String} {g : Fn} {θ : Subst} {args : List Val} {w : World} {v : Val} {w' : World}
-    (hg : P.findFn name = some g) (ha : valTys S args (substTys θ (g.params.map (·.2))) = true)
-    (hev : apply (n + 1) P w (.fn name) args = .ok v w') : valTy S v (substTy θ g.ret) = true := by
+    (hg : P.findFn name = some g) (ha : VTs S P args (substTys θ (g.params.map (·.2))))
+    (hev : apply (n + 1) P w (.fn name) args = .ok v w') : VT S P v (substTy θ g.ret) := by
   rw [apply_fn, hg] at hev
   simp only [] at hev
   obtain ⟨herr, hret, hok⟩ := okProg_fn hP hg
-  have hρ := envTy_bind (S := S) (θ := θ) g.params args [] [] ha (by simp [envTy])
+  have hρ := ET_bind (S := S) (P := P) (θ := θ) g.params args [] [] ha .nil
   have := ih.expr hok herr hρ (KOk_nil _) hev
   rwa [hret] at this
 
 theorem step_list {n : Nat} (ih : SoundAt S P n) {es : List Expr} {ρ : Env} {w : World} {Γ : TyEnv} {K : Know}
     {θ : Subst} {vs : List Val} {w' : World} (hok : okL P Γ K es = true) (herr : errsList S Γ es = [])
-    (hρ : envTy S θ ρ Γ = true) (hK : KOk K ρ) (hev : evalList (n + 1) P ρ w es = .ok vs w') :
-    valTys S vs (substTys θ (getTys es)) = true := by
+    (hρ : ET S P θ ρ Γ) (hK : KOk K ρ) (hev : evalList (n + 1) P ρ w es = .ok vs w') :
+    VTs S P vs (substTys θ (getTys es)) := by
   cases es with
   | nil =>
     rw [evalList_nil_at] at hev
     obtain ⟨rfl, _⟩ := res_ok_inj hev
-    simp [getTys, substTys, valTys]
+    simp only [getTys, substTys]; exact .nil
   | cons e es =>
     simp only [okL, Bool.and_eq_true] at hok
     simp only [errsList, List.append_eq_nil_iff] at herr
@@ -83,14 +85,14 @@ theorem step_list {n : Nat} (ih : SoundAt S P n) {es : List Expr} {ρ : Env} {w 
         rw [h2] at hev; simp only [Res.andThen_ok] at hev
         obtain ⟨rfl, _⟩ := res_ok_inj hev
         simp only [getTys, substTys]
-        exact valTys_mk (ih.expr hok.1 herr.1 hρ hK h1) (ih.list hok.2 herr.2 hρ hK h2)
+        exact .cons (ih.expr hok.1 herr.1 hρ hK h1) (ih.list hok.2 herr.2 hρ hK h2)
 
 theorem step_arms {n : Nat} (ih : SoundAt S P n) {arms : List Arm} {d : Option Expr} {ρ : Env} {w : World}
     {Γ : TyEnv} {K : Know} {θ : Subst} {sv : Option String} {st rt : Ty} {sval v : Val} {w' : World}
     (hok : okA P Γ K sv arms = true) (herr : errsArms S Γ st rt arms = [])
     (hd : ∀ d0, d = some d0 → okE P Γ K d0 = true ∧ errs S Γ d0 = [] ∧ getTy d0 = rt)
-    (hρ : envTy S θ ρ Γ = true) (hK : KOk K ρ) (hsv : ∀ x, sv = some x → lookupEnv ρ x = some sval)
-    (hev : evalArms (n + 1) P ρ w sval arms d = .ok v w') : valTy S v (substTy θ rt) = true := by
+    (hρ : ET S P θ ρ Γ) (hK : KOk K ρ) (hsv : ∀ x, sv = some x → lookupEnv ρ x = some sval)
+    (hev : evalArms (n + 1) P ρ w sval arms d = .ok v w') : VT S P v (substTy θ rt) := by
   cases arms with
   | nil =>
     rw [evalArms_nil_at] at hev
@@ -109,7 +111,7 @@ theorem step_arms {n : Nat} (ih : SoundAt S P n) {arms : List Arm} {d : Option E
     rw [evalArms_cons_at] at hev
     by_cases hm : armMatches lhs sval = true
     · rw [if_pos hm] at hev
-      have hres : ∀ K', KOk K' ρ → okE P Γ K' body = true → valTy S v (substTy θ rt) = true := by
+      have hres : ∀ K', KOk K' ρ → okE P Γ K' body = true → VT S P v (substTy θ rt) := by
         intro K' hK' hok'
         have := ih.expr hok' hbody hρ hK' hev
         rwa [hbt] at this
@@ -132,13 +134,13 @@ theorem step_arms {n : Nat} (ih : SoundAt S P n) {arms : List Arm} {d : Option E
 
 /-- a local variable evaluates to the value the environment binds -/
 theorem eval_local {n : Nat} {ρ : Env} {w : World} {Γ : TyEnv} {θ : Subst} {x : String} {t : Ty} {v : Val} {w' : World}
-    (hl : (lookupVar Γ x).isSome = true) (hρ : envTy S θ ρ Γ = true) (hev : eval n P ρ w (.var x t) = .ok v w') :
-    lookupEnv ρ x = some v ∧ ∃ t0, lookupVar Γ x = some t0 ∧ valTy S v (substTy θ t0) = true := by
+    (hl : (lookupVar Γ x).isSome = true) (hρ : ET S P θ ρ Γ) (hev : eval n P ρ w (.var x t) = .ok v w') :
+    lookupEnv ρ x = some v ∧ ∃ t0, lookupVar Γ x = some t0 ∧ VT S P v (substTy θ t0) := by
   cases n with
   | zero => rw [eval_zero] at hev; cases hev
   | succ n =>
     rw [eval_var] at hev
-    have := envTy_lookup hρ x
+    have := ET_lookup hρ x
     cases hx : lookupVar Γ x with
     | none => simp [hx] at hl
     | some t0 =>
@@ -150,19 +152,49 @@ theorem eval_local {n : Nat} {ρ : Env} {w : World} {Γ : TyEnv} {θ : Subst} {x
 
 theorem step_expr (hS : SigClosed S) (hP : okProg S P = true) {n : Nat} (ih : SoundAt S P n)
     {e : Expr} {ρ : Env} {w : World} {Γ : TyEnv} {K : Know} {θ : Subst} {v : Val} {w' : World}
-    (hok : okE P Γ K e = true) (herr : errs S Γ e = []) (hρ : envTy S θ ρ Γ = true) (hK : KOk K ρ)
-    (hev : eval (n + 1) P ρ w e = .ok v w') : valTy S v (substTy θ (getTy e)) = true := by
+    (hok : okE P Γ K e = true) (herr : errs S Γ e = []) (hρ : ET S P θ ρ Γ) (hK : KOk K ρ)
+    (hev : eval (n + 1) P ρ w e = .ok v w') : VT S P v (substTy θ (getTy e)) := by
   cases e with
   | var x t =>
-    simp only [okE] at hok
-    obtain ⟨_, t0, ht0, hv⟩ := eval_local hok hρ hev
-    simp only [errs, ht0, check_nil] at herr
-    have := tyEq herr; subst this
-    simpa [getTy] using hv
+    simp only [okE, Bool.or_eq_true] at hok
+    by_cases hloc : (lookupVar Γ x).isSome = true
+    · obtain ⟨_, t0, ht0, hv⟩ := eval_local hloc hρ hev
+      simp only [errs, ht0, check_nil] at herr
+      have := tyEq herr; subst this
+      simpa [getTy] using hv
+    · have hfn : fnValOk P x t = true := by
+        rcases hok with h | h
+        · exact absurd h hloc
+        · exact h
+      have hnone : lookupVar Γ x = none := by
+        cases hx : lookupVar Γ x with
+        | none => rfl
+        | some _ => simp [hx] at hloc
+      have hlk : lookupEnv ρ x = none := by
+        have := ET_lookup hρ x
+        simpa [hnone] using this
+      rw [eval_var, hlk] at hev
+      obtain ⟨rfl, _⟩ := res_ok_inj hev
+      unfold fnValOk at hfn
+      cases hg : P.findFn x with
+      | none => simp [hg] at hfn
+      | some g =>
+        simp only [hg] at hfn
+        unfold instSubst at hfn
+        cases hm : matchTy (fnTy g) t [] with
+        | none => simp [hm] at hfn
+        | some σ =>
+          simp only [hm] at hfn
+          by_cases hinst : tyBeq (substTy σ (fnTy g)) t = true
+          · have hinst := tyEq hinst
+            simp only [getTy, Option.getD_none]
+            rw [← hinst, ← substTy_compS]
+            exact .fn _ hg
+          · simp [hinst] at hfn
   | prim p =>
     rw [eval_prim] at hev
     obtain ⟨rfl, _⟩ := res_ok_inj hev
-    simp only [getTy, substTy_primTy]; exact valTy_prim p
+    simp only [getTy, substTy_primTy]; exact VT_prim p
   | tag i t => simp [okE] at hok
   | constr c t args =>
     simp only [okE, Bool.and_eq_true] at hok
@@ -187,14 +219,12 @@ theorem step_expr (hS : SigClosed S) (hP : okProg S P = true) {n : Nat} (ih : So
           simp only [] at hev
           obtain ⟨rfl, _⟩ := res_ok_inj hev
           have hk : isEnumTy (substTy θ t) = true := isEnumTy_subst θ t (by simpa [ctorTyOk] using hok.1)
-          simp only [valTy, hk, Bool.true_and, enumFieldTys_of_fieldTys hf']
-          exact hvs
+          exact .enumV hk (enumFieldTys_of_fieldTys hf') hvs
         | struct tn =>
           simp only [] at hev
           obtain ⟨rfl, _⟩ := res_ok_inj hev
           have hk : isStructTy (substTy θ t) = true := isStructTy_subst θ t (by simpa [ctorTyOk] using hok.1)
-          simp only [valTy, hk, Bool.true_and, hf']
-          exact hvs
+          exact .structV hk hf' hvs
   | tuple t items =>
     simp only [okE] at hok
     simp only [errs, List.append_eq_nil_iff, checkEq_nil] at herr
@@ -205,10 +235,16 @@ theorem step_expr (hS : SigClosed S) (hP : okProg S P = true) {n : Nat} (ih : So
       rw [h1] at hev; simp only [Res.andThen_ok] at hev
       obtain ⟨rfl, _⟩ := res_ok_inj hev
       have hvs := ih.list hok herr.1 hρ hK h1
-      simp only [getTy, herr.2, substTy, valTy]
-      exact hvs
+      simp only [getTy, herr.2, substTy]
+      exact .tuple hvs
   | array t items => simp [okE] at hok
-  | closure t ps body => simp [okE] at hok
+  | closure t ps body =>
+    simp only [okE] at hok
+    simp only [errs, List.append_eq_nil_iff, checkEq_nil] at herr
+    rw [eval_closure] at hev
+    obtain ⟨rfl, _⟩ := res_ok_inj hev
+    simp only [getTy, herr.2, substTy_func]
+    exact .closure hρ herr.1 hok
   | letE x v0 b =>
     simp only [okE, Bool.and_eq_true] at hok
     simp only [errs, List.append_eq_nil_iff] at herr
@@ -219,9 +255,9 @@ theorem step_expr (hS : SigClosed S) (hP : okProg S P = true) {n : Nat} (ih : So
       rw [h1] at hev; simp only [Res.andThen_ok] at hev
       have hvv := ih.expr hok.1 herr.1 hρ hK h1
       simp only [getTy]
-      exact ih.expr hok.2 herr.2 (envTy_cons hvv hρ) (KOk_drop hK x vv) hev
+      exact ih.expr hok.2 herr.2 (.cons hvv hρ) (KOk_drop hK x vv) hev
   | matchE t s arms d =>
-    have hok' : okE P Γ K s = true ∧ okA P Γ K (scrutVar s) arms = true ∧
+    have hok' : okE P Γ K s = true ∧ okA P Γ K (scrutLocal Γ s) arms = true ∧
         (∀ d0, d = some d0 → okE P Γ K d0 = true) := by
       cases d with
       | none =>
@@ -248,12 +284,11 @@ theorem step_expr (hS : SigClosed S) (hP : okProg S P = true) {n : Nat} (ih : So
     | fail f w1 => rw [h1] at hev; simp at hev
     | ok sval w1 =>
       rw [h1] at hev; simp only [Res.andThen_ok] at hev
-      have hsv : ∀ x, scrutVar s = some x → lookupEnv ρ x = some sval := by
+      have hsv : ∀ x, scrutLocal Γ s = some x → lookupEnv ρ x = some sval := by
         intro x hx
-        cases s <;> simp [scrutVar] at hx
-        subst hx
-        simp only [okE] at hs
-        exact (eval_local hs hρ h1).1
+        cases s <;> simp [scrutLocal, scrutVar] at hx
+        obtain ⟨hl, rfl⟩ := hx
+        exact (eval_local hl hρ h1).1
       simp only [getTy]
       exact ih.arms harms hae hde hρ hK hsv hev
   | ite c t e2 =>
@@ -287,7 +322,7 @@ theorem step_expr (hS : SigClosed S) (hP : okProg S P = true) {n : Nat} (ih : So
           rw [h2] at hev; simp only [Res.andThen_ok] at hev
           exact ih.expr hok0 herr0 hρ hK hev
       · obtain ⟨rfl, _⟩ := res_ok_inj hev
-        simp [getTy, substTy, valTy]
+        simp only [getTy, substTy]; exact .unit
       · cases hev
   | go e0 => simp [okE] at hok
   | cget c i t e0 =>
@@ -314,24 +349,23 @@ theorem step_expr (hS : SigClosed S) (hP : okProg S P = true) {n : Nat} (ih : So
           have hi' : (substTys θ fts)[i]? = some (substTy θ ft) := by rw [substTys_getElem?, hi]; rfl
           have hnomc := fieldTys_nominal hf'
           simp only [getTy]
-          have hn := valTy_nominal hve
+          generalize hτ : substTy θ (getTy e0) = τ at hve hf' hnomc
           cases c with
           | struct tn =>
-            have hstruct : isStructTy (substTy θ (getTy e0)) = true :=
-              isStructTy_subst θ _ (by simpa [ctorTyOk] using hkind)
-            cases ve with
-            | structV sn fs =>
-              simp only [] at hev hn
-              have : sn = tn := nominalArgs_name hn.1 hnomc
+            have hstruct : isStructTy τ = true := by
+              rw [← hτ]; exact isStructTy_subst θ _ (by simpa [ctorTyOk] using hkind)
+            cases hve with
+            | @structV sn fs _ fts' h1 h2 h3 =>
+              simp only [] at hev
+              have : sn = tn := nominalArgs_name (fieldTys_nominal h2) hnomc
               subst this
-              simp only [valTy, Bool.and_eq_true, hf'] at hve
-              obtain ⟨fv, hfv, hty⟩ := valTys_get hve.2 i _ hi'
+              rw [hf'] at h2
+              injection h2 with h2; subst h2
+              obtain ⟨fv, hfv, hty⟩ := VTs_get h3 i _ hi'
               rw [hfv] at hev; simp only [] at hev
               obtain ⟨rfl, _⟩ := res_ok_inj hev
               exact hty
-            | enumV en ei eargs =>
-              simp only [] at hn
-              exact (not_enum_and_struct hn.2 hstruct).elim
+            | enumV h1 _ _ => exact (not_enum_and_struct h1 hstruct).elim
             | _ => simp at hev
           | enum tn vn ci =>
             simp only [] at hflow
@@ -339,18 +373,27 @@ theorem step_expr (hS : SigClosed S) (hP : okProg S P = true) {n : Nat} (ih : So
             | var x tx =>
               simp only [beq_iff_eq] at hflow
               obtain ⟨en, eargs, hlk⟩ := hK x ci hflow
-              simp only [okE] at he0
-              have hl := (eval_local he0 hρ h1).1
+              have hloc : (lookupVar Γ x).isSome = true := by
+                cases hx : lookupVar Γ x with
+                | some _ => rfl
+                | none =>
+                  have := ET_lookup hρ x
+                  simp only [hx] at this
+                  rw [this] at hlk; cases hlk
+              have hl := (eval_local hloc hρ h1).1
               rw [hlk] at hl
               injection hl with hl; subst hl
-              simp only [] at hev hn
-              have : en = tn := nominalArgs_name hn.1 hnomc
-              subst this
-              simp only [valTy, Bool.and_eq_true, enumFieldTys_of_fieldTys hf'] at hve
-              obtain ⟨fv, hfv, hty⟩ := valTys_get hve.2 i _ hi'
-              rw [hfv] at hev; simp only [] at hev
-              obtain ⟨rfl, _⟩ := res_ok_inj hev
-              exact hty
+              cases hve with
+              | @enumV _ _ _ _ fts' h1 h2 h3 =>
+                simp only [] at hev
+                have : en = tn := nominalArgs_name (enumFieldTys_nominal h2) hnomc
+                subst this
+                rw [enumFieldTys_of_fieldTys hf'] at h2
+                injection h2 with h2; subst h2
+                obtain ⟨fv, hfv, hty⟩ := VTs_get h3 i _ hi'
+                rw [hfv] at hev; simp only [] at hev
+                obtain ⟨rfl, _⟩ := res_ok_inj hev
+                exact hty
             | _ => simp at hflow
   | un op t e0 =>
     simp only [okE] at hok
@@ -380,10 +423,10 @@ theorem step_expr (hS : SigClosed S) (hP : okProg S P = true) {n : Nat} (ih : So
       rw [h1] at hev; simp only [Res.andThen_ok] at hev
       have hva := ih.expr hok.1 hl hρ hK h1
       simp only [getTy]
-      have hbool : ∀ b, (op = .and ∨ op = .or) → valTy S (.bool b) (substTy θ t) = true := by
+      have hbool : ∀ b, (op = .and ∨ op = .or) → VT S P (.bool b) (substTy θ t) := by
         intro b hcase
         rcases hcase with rfl | rfl <;> simp only [binopOk, Bool.and_eq_true] at hop' <;>
-          (have := tyEq hop'.2; rw [this]; simp [valTy])
+          (have := tyEq hop'.2; rw [this]; exact .bool _)
       by_cases c1 : scAnd op va = true
       · rw [if_pos c1] at hev
         obtain ⟨rfl, _⟩ := res_ok_inj hev
@@ -411,71 +454,84 @@ theorem step_expr (hS : SigClosed S) (hP : okProg S P = true) {n : Nat} (ih : So
                 obtain ⟨rfl, _⟩ := res_ok_inj hev
                 exact binop_sound hop' hva hvb hb
   | call t f args =>
-    simp only [okE, Bool.and_eq_true] at hok
+    simp only [okE, Bool.and_eq_true, Bool.or_eq_true] at hok
     obtain ⟨hargsok, hf⟩ := hok
-    cases f with
-    | var fn tf =>
-      simp only [Bool.and_eq_true] at hf
-      obtain ⟨⟨hnone, hcallee⟩, htf⟩ := hf
-      have htf := tyEq htf
-      simp only [errs, List.append_eq_nil_iff] at herr
-      rw [eval_call] at hev
-      cases n with
-      | zero => rw [eval_zero] at hev; simp at hev
-      | succ m =>
-        rw [eval_var] at hev
-        have hlk : lookupEnv ρ fn = none := by
-          have := envTy_lookup hρ fn
-          cases hx : lookupVar Γ fn with
-          | some _ => simp [hx] at hnone
-          | none => simpa [hx] using this
-        rw [hlk] at hev
-        simp only [Option.getD_none, Res.andThen_ok] at hev
-        cases h2 : evalList (m + 1) P ρ w args with
+    simp only [errs, List.append_eq_nil_iff] at herr
+    rw [eval_call] at hev
+    simp only [getTy]
+    rcases hf with hdirect | ⟨hfok, hfty⟩
+    · -- an admitted builtin
+      cases f with
+      | var fn tf =>
+        simp only [Bool.and_eq_true] at hdirect
+        obtain ⟨⟨hnone, hb⟩, htf⟩ := hdirect
+        have htf := tyEq htf
+        cases n with
+        | zero => rw [eval_zero] at hev; simp at hev
+        | succ m =>
+          rw [eval_var] at hev
+          have hlk : lookupEnv ρ fn = none := by
+            have := ET_lookup hρ fn
+            cases hx : lookupVar Γ fn with
+            | some _ => simp [hx] at hnone
+            | none => simpa [hx] using this
+          rw [hlk] at hev
+          simp only [Option.getD_none, Res.andThen_ok] at hev
+          cases h2 : evalList (m + 1) P ρ w args with
+          | fail f w2 => rw [h2] at hev; simp at hev
+          | ok vs w2 =>
+            rw [h2] at hev; simp only [Res.andThen_ok] at hev
+            have hvs := ih.list hargsok herr.1.2 hρ hK h2
+            unfold builtinOk at hb
+            simp only [Bool.and_eq_true, Option.isNone_iff_eq_none] at hb
+            obtain ⟨hg, hb⟩ := hb
+            cases hbt : builtinTy fn with
+            | none =>
+              -- `missing`: always panics
+              simp only [hbt, Bool.and_eq_true, beq_iff_eq] at hb
+              obtain ⟨rfl, hshape⟩ := hb
+              exfalso
+              rw [htf] at hshape
+              cases hga : getTys args with
+              | nil => simp [hga] at hshape
+              | cons t1 rest =>
+                cases rest with
+                | cons _ _ => cases t1 <;> simp [hga] at hshape
+                | nil =>
+                  rw [hga] at hvs
+                  simp only [substTys] at hvs
+                  obtain ⟨a, rfl, _⟩ := VTs_single hvs
+                  rw [apply_fn, hg] at hev
+                  simp [builtin] at hev
+            | some bt =>
+              simp only [hbt] at hb
+              have := tyEq hb
+              subst this
+              rw [apply_fn, hg] at hev
+              simp only [] at hev
+              rw [htf] at hbt
+              have hclosed : substTys θ (getTys args) = getTys args ∧ substTy θ t = t := by
+                unfold builtinTy at hbt
+                split at hbt <;> simp only [Option.some.injEq, Ty.func.injEq, reduceCtorEq] at hbt <;>
+                  (obtain ⟨h1, h2⟩ := hbt; rw [← h1, ← h2]; simp [substTys, substTy])
+              rw [hclosed.1] at hvs
+              rw [hclosed.2]
+              exact builtin_sound hbt hvs hev
+      | _ => simp at hdirect
+    · -- any fragment expression of function type
+      have hfty := tyEq hfty
+      cases h1 : eval n P ρ w f with
+      | fail f w1 => rw [h1] at hev; simp at hev
+      | ok fv w1 =>
+        rw [h1] at hev; simp only [Res.andThen_ok] at hev
+        have hfv := ih.expr hfok herr.1.1 hρ hK h1
+        rw [hfty, substTy_func] at hfv
+        cases h2 : evalList n P ρ w1 args with
         | fail f w2 => rw [h2] at hev; simp at hev
         | ok vs w2 =>
           rw [h2] at hev; simp only [Res.andThen_ok] at hev
           have hvs := ih.list hargsok herr.1.2 hρ hK h2
-          simp only [getTy]
-          unfold calleeOk at hcallee
-          cases hg : P.findFn fn with
-          | some g =>
-            simp only [hg] at hcallee
-            unfold instSubst at hcallee
-            cases hm : matchTy (fnTy g) tf [] with
-            | none => simp [hm] at hcallee
-            | some σ =>
-              simp only [hm] at hcallee
-              by_cases hinst : tyBeq (substTy σ (fnTy g)) tf = true
-              · have hinst := tyEq hinst
-                rw [htf] at hinst
-                unfold fnTy at hinst
-                rw [substTy_func] at hinst
-                injection hinst with hps hret
-                have key := ih.app (θ := compS θ σ) hg (by
-                  rw [substTys_compS, hps]; exact hvs) hev
-                rw [substTy_compS, hret] at key
-                exact key
-              · simp [hinst] at hcallee
-          | none =>
-            simp only [hg] at hcallee
-            cases hb : builtinTy fn with
-            | none => simp [hb] at hcallee
-            | some bt =>
-              simp only [hb] at hcallee
-              have := tyEq hcallee
-              subst this
-              rw [apply_fn, hg] at hev
-              simp only [] at hev
-              rw [htf] at hb
-              have hclosed : substTys θ (getTys args) = getTys args ∧ substTy θ t = t := by
-                unfold builtinTy at hb
-                split at hb <;> simp only [Option.some.injEq, Ty.func.injEq, reduceCtorEq] at hb <;>
-                  (obtain ⟨h1, h2⟩ := hb; rw [← h1, ← h2]; simp [substTys, substTy])
-              rw [hclosed.1] at hvs
-              rw [hclosed.2]
-              exact builtin_sound hb hvs hev
-    | _ => simp at hf
+          exact ih.appv hfv hvs hev
   | toDyn tr ft t e0 => simp [okE] at hok
   | dynCall tr m t recv args => simp [okE] at hok
   | traitCall tr m t recv args =>
@@ -494,7 +550,7 @@ theorem step_expr (hS : SigClosed S) (hP : okProg S P = true) {n : Nat} (ih : So
       | ok vs w2 =>
         rw [h2] at hev; simp only [Res.andThen_ok] at hev
         have hvs := ih.list hargsok herr.1.2 hρ hK h2
-        rw [valKey_of_valTy hconc hrv] at hev
+        rw [valKey_of_VT hconc hrv] at hev
         unfold dispatchOk at hdisp
         cases hrow : P.impls.find? (fun i => i.1 == tr && i.2.1 == tyKey (getTy recv) && i.2.2.1 == m) with
         | none => simp [hrow] at hdisp
@@ -509,7 +565,7 @@ theorem step_expr (hS : SigClosed S) (hP : okProg S P = true) {n : Nat} (ih : So
             injection hsig with hps hret
             have key := ih.app (θ := θ) hg (by
               rw [hps]; simp only [substTys, substTy_concrete θ hconc]
-              exact valTys_mk hrv hvs) hev
+              exact .cons hrv hvs) hev
             rw [hret] at key
             simpa [getTy] using key
   | proj i t e0 =>
@@ -531,28 +587,51 @@ theorem step_expr (hS : SigClosed S) (hP : okProg S P = true) {n : Nat} (ih : So
         subst hpt
         rw [hg] at hve
         simp only [substTy] at hve
-        obtain ⟨vs, rfl, hvs⟩ := valTy_tuple hve
+        obtain ⟨vs, rfl, hvs⟩ := VT_tuple hve
         have hi' : (substTys θ ts)[i]? = some (substTy θ ft) := by rw [substTys_getElem?, hi]; rfl
-        obtain ⟨fv, hfv, hty⟩ := valTys_get hvs i _ hi'
+        obtain ⟨fv, hfv, hty⟩ := VTs_get hvs i _ hi'
         simp only [] at hev
         rw [hfv] at hev; simp only [] at hev
         obtain ⟨rfl, _⟩ := res_ok_inj hev
         simpa [getTy] using hty
 
+theorem step_appv (hS : SigClosed S) (hP : okProg S P = true) {n : Nat} (ih : SoundAt S P n)
+    {fv : Val} {as : List Ty} {r : Ty} {args : List Val} {w : World} {v : Val} {w' : World}
+    (hf : VT S P fv (.func as r)) (ha : VTs S P args as) (hev : apply (n + 1) P w fv args = .ok v w') :
+    VT S P v r := by
+  generalize hτ : Ty.func as r = τ at hf
+  cases hf with
+  | @closure θc ρc Γc pts body hρc herr hok =>
+    injection hτ with h1 h2
+    subst h1; subst h2
+    rw [apply_closure] at hev
+    exact ih.expr hok herr (ET_bind pts args ρc Γc ha hρc) (KOk_nil _) hev
+  | @fn name g θ' hg =>
+    unfold fnTy at hτ
+    rw [substTy_func] at hτ
+    injection hτ with h1 h2
+    subst h1; subst h2
+    exact step_app hS hP ih hg ha hev
+  | enumV h1 _ _ => subst hτ; simp [isEnumTy] at h1
+  | structV h1 _ _ => subst hτ; simp [isStructTy] at h1
+  | _ => cases hτ
+
 /-- **type soundness of `Sem` on the fragment**, for every amount of fuel -/
 theorem sound_all (hS : SigClosed S) (hP : okProg S P = true) (n : Nat) : SoundAt S P n := by
   induction n with
   | zero =>
-    refine ⟨?_, ?_, ?_, ?_⟩
+    refine ⟨?_, ?_, ?_, ?_, ?_⟩
     · intro e ρ w Γ K θ v w' _ _ _ _ h; rw [eval_zero] at h; cases h
     · intro es ρ w Γ K θ vs w' _ _ _ _ h; rw [evalList_zero] at h; cases h
     · intro arms d ρ w Γ K θ sv st rt sval v w' _ _ _ _ _ _ h; rw [evalArms_zero] at h; cases h
     · intro name g θ args w v w' _ _ h; rw [apply_zero] at h; cases h
+    · intro fv as r args w v w' _ _ h; rw [apply_zero] at h; cases h
   | succ n ih =>
     exact ⟨fun h1 h2 h3 h4 h5 => step_expr hS hP ih h1 h2 h3 h4 h5,
            fun h1 h2 h3 h4 h5 => step_list ih h1 h2 h3 h4 h5,
            fun h1 h2 h3 h4 h5 h6 h7 => step_arms ih h1 h2 h3 h4 h5 h6 h7,
-           fun h1 h2 h3 => step_app hS hP ih h1 h2 h3⟩
+           fun h1 h2 h3 => step_app hS hP ih h1 h2 h3,
+           fun h1 h2 h3 => step_appv hS hP ih h1 h2 h3⟩
 
 end
 end Goml.ValTy
